@@ -373,12 +373,8 @@ Fixpoint drop_prefix (p s : str) : option str :=
   | _ :: _, [] => None
   end.
 
-Fixpoint parse_dec_aux (s : str) (acc : N) : option N :=
-  match s with
-  | [] => Some acc
-  | c :: r => if (48 <=? c) && (c <=? 57) then parse_dec_aux r (acc * 10 + (c - 48)) else None
-  end.
-Definition parse_dec (s : str) : option N := if nonempty s then parse_dec_aux s 0 else None.
+(* [ps] is the decimal form of one of [ports] *)
+Definition port_in (ps : str) (ports : list N) : bool := existsb (fun p => str_eqb ps (dec p)) ports.
 
 Definition s_tcp_star : str := s_tcp ++ s_star ++ s_colon.
 
@@ -422,14 +418,11 @@ Definition target_names (tgt p : str) (e : inbound) : bool :=
 Definition target_hits (tgt p : str) (e : inbound) : bool :=
   negb (nonempty (i_target e)) && target_names tgt p e.
 
-(* all ((task index, ports requested for the task in ACCEPT), task, told, effective inbound
-   channel) *)
-Definition binder := ((N * list N) * wtask * props * inbound)%type.
-Fixpoint binders_from (k : N) (l : list (wtask * props * list N)) : list binder :=
-  match l with
-  | [] => []
-  | (w, pr, pt) :: r => map (fun e => ((k, pt), w, pr, e)) (eff_in w) ++ binders_from (N.succ k) r
-  end.
+(* all (ports requested for the task in ACCEPT, task, told, effective inbound channel) *)
+Definition binder := (list N * wtask * props * inbound)%type.
+Definition binders_of (l : list (wtask * props * list N)) : list binder :=
+  flat_map (fun x : wtask * props * list N =>
+              let '(w, pr, pt) := x in map (fun e => (pt, w, pr, e)) (eff_in w)) l.
 
 Definition w_path (w : wtask) : str := join_path (w_names w).
 
@@ -440,14 +433,14 @@ Definition alloc_addr_ok (host : str) (ports : list N) (e : inbound) (addr tr : 
   str_eqb tr (i_tr e) &&
   (if i_ipc e then has_prefix s_ipc addr
    else match drop_prefix (s_tcp ++ host ++ s_colon) addr with
-        | Some ps => match parse_dec ps with Some p => memN p ports | None => false end
+        | Some ps => port_in ps ports
         | None => false
         end).
 
 (* the peer's address agrees with what the binder was told (a binder without channel
    configuration - control mode basic - is told nothing: the allocation is compared) *)
 Definition good_hit (addr tr : str) (b : binder) : bool :=
-  let '((_, pt), w, pr, e) := b in
+  let '(pt, w, pr, e) := b in
   if w_chans w then
     match assoc (i_name e) pr with
     | Some (baddr, bm, btr) => str_eqb bm m_bind && agree (w_host w) baddr addr && str_eqb tr btr
@@ -458,7 +451,7 @@ Definition good_hit (addr tr : str) (b : binder) : bool :=
 (* regressions of repaired defects: the peer was sent to an allocation made for a channel that
    is told its own explicit target (5) / whose target is invalid (6) *)
 Definition known_hit (cls : N) (addr tr : str) (b : binder) : bool :=
-  let '((_, pt), w, _, e) := b in
+  let '(pt, w, _, e) := b in
   alloc_addr_ok (w_host w) pt e addr tr &&
   (if cls =? 5 then is_explicit (i_target e) else invalid_target (i_target e)).
 
@@ -491,28 +484,24 @@ Definition check_in (ports : list N) (pr : props) (e : inbound) : N :=
     else if negb (str_eqb btr (i_tr e)) then 11
     else if i_ipc e then (if has_prefix s_ipc baddr then 0 else 11)
     else match drop_prefix s_tcp_star baddr with
-         | Some ps => match parse_dec ps with
-                      | Some p => if memN p ports then 0 else 11
-                      | None => 11
-                      end
+         | Some ps => if port_in ps ports then 0 else 11
          | None => 11
          end
   end.
 
-(* two different channels claiming one alias: 9 = within one task (any two declarations),
-   8 = in different tasks (channels that take part in matching) *)
-Fixpoint alias_codes (bs : list binder) : list N :=
-  match bs with
-  | [] => []
-  | ((k, _), _, _, e) :: r =>
-    (if nonempty (i_global e) then
-       flat_map (fun b : binder => let '((k', _), _, _, e') := b in
-                          if str_eqb (i_global e) (i_global e')
-                          then (if k =? k' then [9]
-                                else if nonempty (i_target e) || nonempty (i_target e') then [] else [8])
-                          else []) r
-     else []) ++ alias_codes r
+(* one alias claimed twice.  Within one task any two declarations count (9); across tasks the
+   channels that take part in matching (8). *)
+Definition codes9 (ws : list wtask) : list N :=
+  map (fun w => if nodupb str_eqb (globals_of (eff_in w)) then 0 else 9) ws.
+Definition free_aliases (w : wtask) : list str :=
+  globals_of (filter (fun e => negb (nonempty (i_target e))) (eff_in w)).
+Fixpoint cross_dup (al : list (list str)) : bool :=
+  match al with
+  | [] => false
+  | l :: r => existsb (fun g => existsb (mem_str g) r) l || cross_dup r
   end.
+Definition codes8 (ws : list wtask) : list N :=
+  if cross_dup (map free_aliases ws) then [8] else [].
 
 (* the first violation *)
 Definition pick (codes : list N) : N :=
@@ -525,6 +514,18 @@ Definition advertised_codes (ws : list wtask) (locals : list bindmap) : list N :
                   (eff_in (fst x)))
            (combine ws locals).
 
+(* the configuration failed: it must be because of an unmatched target, an inbound channel
+   with an invalid target, or an alias claimed twice *)
+Definition unmatched_in (ws : list wtask) : bool :=
+  let bs := binders_of (map (fun w => (w, [], [])) ws) in
+  existsb (fun w => w_chans w &&
+                    existsb (fun d => negb (is_explicit (o_target d)) && negb (nonempty (hits_of bs d)))
+                            (eff_out w)) ws.
+Definition invalid_in (ws : list wtask) : bool :=
+  existsb (fun w => w_chans w && existsb (fun e => invalid_target (i_target e)) (eff_in w)) ws.
+Definition alias_twice (ws : list wtask) : bool :=
+  negb (forallb (N.eqb 0) (codes9 ws)) || cross_dup (map free_aliases ws).
+
 Definition mon_env (ws : list wtask) (obs : option (list (bindmap * props))) (ports : list (list N)) : N :=
   if negb (forallb w_clean ws) then 0
   else
@@ -533,7 +534,7 @@ Definition mon_env (ws : list wtask) (obs : option (list (bindmap * props))) (po
       if negb (length ws =? length os)%nat then 20
       else
         let wpp := combine (combine ws (map snd os)) (ports ++ repeat [] (length ws)) in
-        let bs := binders_from 0 wpp in
+        let bs := binders_of wpp in
         let per_task :=
             flat_map (fun x : wtask * props * list N =>
                         let '(w, pr, pt) := x in
@@ -541,20 +542,8 @@ Definition mon_env (ws : list wtask) (obs : option (list (bindmap * props))) (po
                         then map (check_out bs pr) (eff_out w) ++ map (check_in pt pr) (eff_in w)
                         else [])
                      wpp in
-        pick (per_task ++ alias_codes bs ++ advertised_codes ws (map fst os))
-    | None =>
-      (* the configuration failed: it must be because of an unmatched target, an inbound
-         channel with an invalid target, or an alias claimed twice *)
-      let bs := binders_from 0 (map (fun w => (w, [], [])) ws) in
-      let unmatched :=
-          existsb (fun w => w_chans w &&
-                            existsb (fun d => negb (is_explicit (o_target d)) &&
-                                              negb (existsb (fun b : binder => let '(_, w', _, e) := b in
-                                                                      target_hits (o_target d) (w_path w') e) bs))
-                                    (eff_out w)) ws in
-      let invalid_in :=
-          existsb (fun w => w_chans w && existsb (fun e => invalid_target (i_target e)) (eff_in w)) ws in
-      if unmatched || invalid_in || nonempty (alias_codes bs) then 0 else 12
+        pick (per_task ++ codes9 ws ++ codes8 ws ++ advertised_codes ws (map fst os))
+    | None => if unmatched_in ws || invalid_in ws || alias_twice ws then 0 else 12
     end.
 
 Definition key_in (k : str) (bm : bindmap) : bool := is_some (assoc k bm).
